@@ -3,9 +3,9 @@
 import sys, os, json, subprocess
 sys.path.insert(0, os.path.dirname(os.path.dirname(os.path.abspath(__file__))))
 from harness import driver, common
-d = json.load(open(sys.argv[1])); case = d["case"]; work = sys.argv[2]; pid = d.get("property") or sys.argv[3]
+d = json.load(open(sys.argv[1])); case = d["case"]; work = sys.argv[2]; pid = sys.argv[3] if len(sys.argv) > 3 else d.get("property")
 os.makedirs(work, exist_ok=True)
 res, req = driver.generate(case["api"], case["options"], work)
-out = os.path.join(work, "out"); driver.materialise(res.response, out)
+out = os.path.join(work, "out"); driver.materialise(res.response, out); driver.materialise_dep_pb2(req, case["api"], out)
 r = driver.exercise(pid, work, out, req, case["api"], case["options"], case.get("inner") or {})
 print(json.dumps(r, indent=1)[:6000])
